@@ -24,6 +24,11 @@ impl Stack {
 //@ |    ensures old(self).view().len() == 0 ==> r is None && final(self).view() == old(self).view(),
 //@ |        old(self).view().len() > 0 ==> r == Some(old(self).view().last()) && final(self).view() == old(self).view().drop_last(),
 
+//# ob name=stack_peek verus_fn=Stack::peek fn=vm::context::Stack::peek kind=complete stmt="peek on a non-empty stack returns the top and changes nothing (no unwrap panic under the precondition len > 0)"
+//@ extract file=minijinja/src/vm/context.rs item=fn:Stack::peek ret=r
+//@ |    requires self.view().len() > 0,
+//@ |    ensures *r == self.view().last(),
+
 //# ob name=stack_drop_top verus_fn=Stack::drop_top fn=vm::context::Stack::drop_top kind=complete stmt="drop_top(n) with n <= len removes exactly the top n values (no subtraction underflow)"
 //@ extract file=minijinja/src/vm/context.rs item=fn:Stack::drop_top
 //@ |    requires n <= old(self).view().len(),
